@@ -28,6 +28,7 @@ import (
 	"github.com/attestantio/vouch/services/beaconblockproposer"
 	standardproposer "github.com/attestantio/vouch/services/beaconblockproposer/standard"
 	"github.com/attestantio/vouch/services/cache"
+	"github.com/attestantio/vouch/services/graffitiprovider"
 	mockcache "github.com/attestantio/vouch/services/cache/mock"
 	nullmetrics "github.com/attestantio/vouch/services/metrics/null"
 	bestproposal "github.com/attestantio/vouch/strategies/beaconblockproposal/best"
@@ -222,6 +223,93 @@ func c16RunProposer(ctx context.Context, sh map[string]string) c16Res {
 		return c16Fallback("proposed with empty graffiti")
 	}
 	return c16OK("proposal submitted")
+}
+
+// c16RunGraffitiPropose: entry point "graffiti" with use = propose | proposebest.  The real proposer
+// takes its graffiti from the real dynamic provider (whatever the operator's file holds) and proposes:
+// directly through the client library (the proposer expands {{CLIENT}}) or through the real `best`
+// proposal strategy (the strategy expands it per node).  Several proposals, because the provider picks
+// a line at random.
+func c16RunGraffitiPropose(ctx context.Context, sh map[string]string, provider graffitiprovider.Service) c16Res {
+	viper.Set("timeout", 2*time.Second)
+	node := c16NewNode(c16NodeVersion("teku"))
+	defer node.Close()
+	var seen []string
+	var mu sync.Mutex
+	answer := c16ProposalAnswer("deneb", false, "valid", false)
+	node.Set("/eth/v3/validator/blocks/", c16Answer{Func: func(r *http.Request) c16Answer {
+		mu.Lock()
+		seen = append(seen, r.URL.Query().Get("graffiti"))
+		mu.Unlock()
+		return answer.Func(r)
+	}})
+	client := c16NodeClient(ctx, node)
+	var proposals eth2client.ProposalProvider = client.(eth2client.ProposalProvider)
+	if sh["use"] == "proposebest" {
+		best, err := bestproposal.New(ctx,
+			bestproposal.WithLogLevel(c16LogLevel()),
+			bestproposal.WithTimeout(400*time.Millisecond),
+			bestproposal.WithClientMonitor(nullmetrics.New()),
+			bestproposal.WithProcessConcurrency(2),
+			bestproposal.WithEventsProvider(mock.NewEventsProvider()),
+			bestproposal.WithChainTimeService(c16NowChainTime()),
+			bestproposal.WithSpecProvider(mock.NewSpecProvider()),
+			bestproposal.WithProposalProviders(map[string]eth2client.ProposalProvider{"node0": proposals}),
+			bestproposal.WithSignedBeaconBlockProvider(mock.NewSignedBeaconBlockProvider()),
+			bestproposal.WithBlockRootToSlotCache(mockcache.New(map[phase0.Root]phase0.Slot{}).(cache.BlockRootToSlotProvider)),
+		)
+		if err != nil {
+			panic("c16 harness: best proposal strategy: " + err.Error())
+		}
+		proposals = best
+	}
+	submitter := &c16Submitter{}
+	accounts := mockaccountmanager.NewValidatingAccountsProvider()
+	accounts.AddAccount(1, c16Account(1))
+	s, err := standardproposer.New(ctx,
+		standardproposer.WithLogLevel(c16LogLevel()),
+		standardproposer.WithMonitor(nullmetrics.New()),
+		standardproposer.WithChainTime(c16NowChainTime()),
+		standardproposer.WithProposalDataProvider(proposals),
+		standardproposer.WithValidatingAccountsProvider(accounts),
+		standardproposer.WithExecutionChainHeadProvider(mockcache.New(map[phase0.Root]phase0.Slot{}).(cache.ExecutionChainHeadProvider)),
+		standardproposer.WithProposalSubmitter(submitter),
+		standardproposer.WithRANDAORevealSigner(&c16Signer{}),
+		standardproposer.WithBeaconBlockSigner(&c16Signer{}),
+		standardproposer.WithBlobSidecarSigner(&c16Signer{}),
+		standardproposer.WithBuilderBoostFactor(100),
+		standardproposer.WithGraffitiProvider(provider),
+	)
+	if err != nil {
+		panic("c16 harness: proposer: " + err.Error())
+	}
+	const rounds = 4
+	for i := 0; i < rounds; i++ {
+		duty := beaconblockproposer.NewDuty(c16Slot, 7)
+		var randao phase0.BLSSignature
+		randao[0], randao[95] = 0xc0, 0x01
+		duty.SetRandaoReveal(randao)
+		duty.SetAccount(c16Account(1))
+		pctx, cancel := context.WithTimeout(ctx, 4*time.Second)
+		s.Propose(pctx, duty)
+		cancel()
+	}
+	time.Sleep(20 * time.Millisecond)
+	submitter.mu.Lock()
+	n := submitter.submitted
+	submitter.mu.Unlock()
+	if n < rounds {
+		return c16Err(fmt.Sprintf("%d of %d proposals submitted", n, rounds))
+	}
+	mu.Lock()
+	defer mu.Unlock()
+	empty := "0x" + strings.Repeat("00", 32)
+	for _, g := range seen {
+		if g != empty && g != "" {
+			return c16OK(fmt.Sprintf("%d proposals, graffiti %s", n, g))
+		}
+	}
+	return c16Fallback(fmt.Sprintf("%d proposals with empty graffiti", n))
 }
 
 func c16RunProposalBest(ctx context.Context, sh map[string]string) c16Res {
